@@ -34,26 +34,25 @@ TRUSTED = [
 ASSUMPTIONS = ['NumPy-backed DataArray, return_type="numpy"; mask values are 0/1 (False/True); +-inf cells equal only themselves, NaN cells equal nothing (IEEE ==)',
                'float rasters: values far enough apart that the np.isclose-style tolerance of _is_close coincides with equality']
 PARTIAL = [
-    'the component relation inside the bounded theorems is the executable min-label propagation Spec.comp_labels (n rounds / until '
-    'stable), not a path Prop; the path-based statement is part of the unclaimed C15_regions_are_components_full_statement',
     'C15_lossless_full_statement (for EVERY raster: the model\'s polygons rasterise back to the raster, area = cell count, orientation) '
-    'is stated and NOT claimed; it is proved only for the bounded domains of C15_bounded_lossless_small(_masked) (and of the coqc-only '
+    'is stated and NOT claimed: what is missing is that _scan never fails (needs "final region ids are numbered in order of first '
+    'cell" and "visited bit 1 is only set inside already followed regions") and the Jordan-curve step "the followed ring encloses '
+    'exactly the region"; it is proved only for the bounded domains of C15_bounded_lossless_small(_masked) (and of the coqc-only '
     'Extended.v theorems C15x_*) and checked by correspondence + oracle beyond them',
-    'C15_regions_are_components_full_statement (same region id iff joined by a 4-/8-path of equal unmasked values, for every raster) is '
-    'stated and NOT claimed; bounded version inside C15_bounded_lossless_small, oracle beyond it',
-    'C15_follow_terminates_full_statement (the boundary follower returns to its start within 4*nx*ny steps for every start on a region '
-    'boundary) is stated and NOT claimed universally; inside the bounded domain the model never runs out of that fuel',
+    'the component relation inside the BOUNDED theorems is the executable min-label propagation Spec.comp_labels; the universal '
+    'C15_regions_are_components uses the path relation (clos_refl_trans of linkedP) — the two are not proved equal',
 ]
-LEVEL_TEXT = ('Proved for all inputs (any size, any region array): region_lookup stays acyclic (lookup[i] = 0 or 1 <= lookup[i] < i) '
-              'through every merge and every labelled cell, so the merge chain walk terminates within its fuel, labelling never fails and '
-              'compaction only reads initialised entries; a merge joins exactly the classes of its two arguments; masked cells get '
-              'region 0 and unmasked cells a region >= 1; one follower step moves the current corner by one unit along forward, so every '
-              'ring the model emits is closed, has integer vertices in [0,nx]x[0,ny] and axis-parallel edges, both passes count the same '
-              'points, and the transform is applied to every vertex. Bounded (vm_compute, bound in the statement, re-checked by coqchk): '
-              'full losslessness, area, orientation, regions = components and follower fuel for every raster over {0,1,2} / {masked,0,1} '
-              'on shapes with <= 5 cells and over {0,1} on shapes with <= 6 cells, 3x3, 2x4, 4x2; coq/C15/Extended.v proves the same '
-              '(coqc only, not coqchk) for {0,1,2} and {masked,0,1} on every shape with <= 8 cells and 3x3. Beyond the bound: '
-              'correspondence (exact vertex lists and region ids) + rasterising oracle on generated inputs.')
+LEVEL_TEXT = ('Proved for all inputs (any size below 2^32-1 cells): REGIONS ARE COMPONENTS — two unmasked cells get the same final region id '
+              'iff they are joined by a 4-/8-path of equal-valued unmasked cells (union-find invariant through every labelled cell and '
+              'merge, then compaction = same root), region_lookup stays acyclic, labelling never fails, masked cells get region 0; THE '
+              'BOUNDARY FOLLOWER TERMINATES — started on any region boundary of any region array it returns to its start within the '
+              '4*nx*ny fuel (its step has a left inverse on boundary states; pigeonhole) and the ring is closed, on cell corners of '
+              '[0,nx]x[0,ny] and axis-parallel; both passes count the same points; the transform is applied to every vertex. Bounded '
+              '(vm_compute, bound in the statement, re-checked by coqchk): full losslessness (even-odd rasterisation, exactly-once '
+              'coverage, area, orientation, polygons = components) for every raster over {0,1,2} / {masked,0,1} on shapes with <= 5 cells '
+              'and over {0,1} on shapes with <= 6 cells, 3x3, 2x4, 4x2; coq/C15/Extended.v proves the same (coqc only) for {0,1,2} and '
+              '{masked,0,1} on every shape with <= 8 cells and 3x3. Not proved in general: that the followed rings enclose exactly the '
+              'region (unbounded losslessness) — correspondence (exact vertex lists and region ids) + rasterising oracle cover it.')
 LEVEL_NOTE = ('Trusted: Coq kernel, extraction, the OCaml driver, the harness; values embedded in Z with _is_close modelled as equality '
               '(dyadic, well separated float values only); NumPy glue (hstack/ravel/np.empty) covered by correspondence only.')
 OCAML_UTILS = ['zio.ml']
